@@ -81,3 +81,20 @@ package utils
 //@   requires b != nil
 //@   modifies nothing
 //@   site block * EXITS: [C17] requires waits(ctxdone(b.ctx))
+
+// ---- C03: the relay between two connections forwards exactly what it reads, in order, and stops (closing the
+// ---- destination) as soon as something read could not be written completely
+
+//@ func bridgeHalf
+//@   tags C03
+//@   requires c1 != nil && c2 != nil && done != nil
+//@   ghostflag read set call:Read
+//@   ghostflag written set call:Write clear call:Read
+//@   ghostflag closed2 set call:Close
+//@   site call Read INORDER: [C03] requires arg0 == buf && (flag("read") && lastcall("Read", 0) > 0 ==> flag("written"))
+//@   site call Write VERBATIM: [C03] requires ref(arg0) == ref(buf) && off(arg0) == off(buf) && len(arg0) == n && n == lastcall("Read", 0) && n > 0 && !flag("written")
+//@   site continue #1 NOLOSS: [C03] requires lastcall("Read", 1) == nil && (lastcall("Read", 0) > 0 ==> flag("written") && lastcall("Write", 1) == nil && lastcall("Write", 0) == lastcall("Read", 0))
+//@   ensures PROPAGATE: [C03] flag("closed2")
+//@   loop #1
+//@     invariant SAMEBUF: [C03] len(buf) == 65536 && buf != nil && !flag("closed2")
+//@     invariant DRAINED: [C03] flag("read") && lastcall("Read", 0) > 0 ==> flag("written")
